@@ -137,7 +137,7 @@ def units(tier):
 def meta(tier):
     return dict(bounds=dict(constructs=[c[0] for c in T.CONS], contexts="top level of a main program, inside IF; thorough adds DO/SELECT/BLOCK/labelled DO",
                             edits=["delete opening line", "delete END line", "duplicate END line", "END name := symbolic name of the same length, different ignoring case"],
-                            parentheses="delete each parenthesis outside character context; insert ( before / ) after it"),
+                            parentheses="delete each parenthesis outside character context; insert ( before / ) after it; one surplus ( or ) at the end of every statement and after its first word (also where the statement has no parentheses)"),
                 assumptions=["free form, ignore_comments=True", "renamed END names differ from the original ignoring case and are not keywords"],
                 budget_s=400, unit_budget_s=150, witness_every=3)
 
